@@ -1,10 +1,11 @@
 // Independent reader of registry segment files (shares no code with /repo/fs or /repo/encoding).
 //
 // Layout (derived by reading /repo/encoding/handle.go and /repo/fs/marshaldata.go):
-//   segment file "<table>-<n>.reg", n = 1,2,..., made of 4096-byte blocks;
-//   block = 66 records of 62 bytes (bytes 0..4091) + CRC32-IEEE of bytes 0..4091, little endian, at 4092..4095;
-//   an all-zero block was never written; an all-zero record is a free slot;
-//   record = LogicalID[16] PhysicalIDA[16] PhysicalIDB[16] IsActiveIDB[1] Version[int32 LE] WorkInProgressTimestamp[int64 LE] IsDeleted[1].
+//
+//	segment file "<table>-<n>.reg", n = 1,2,..., made of 4096-byte blocks;
+//	block = 66 records of 62 bytes (bytes 0..4091) + CRC32-IEEE of bytes 0..4091, little endian, at 4092..4095;
+//	an all-zero block was never written; an all-zero record is a free slot;
+//	record = LogicalID[16] PhysicalIDA[16] PhysicalIDB[16] IsActiveIDB[1] Version[int32 LE] WorkInProgressTimestamp[int64 LE] IsDeleted[1].
 package main
 
 import (
